@@ -740,6 +740,133 @@ struct Conn
 	}
 };
 
+// C13: several hosts behind one external address that use the same local port. To the acceptor they are one and the same
+// endpoint, yet every one of them gets its own connection: all connects succeed, as many accepts, each accepted socket
+// reports the external address with that port, and the bytes of every pair go to its own peer and nowhere else.
+static void same_port_behind_one_nat(Plan const& plan, Ctx& ctx)
+{
+	int const nc = int(std::max<int64_t>(2, std::min<int64_t>(3, plan.c("sp_clients"))));
+	int64_t const accept_delay = std::max<int64_t>(0, plan.c("sp_accept_delay"));
+	uint16_t const port = 6881;
+	Net net;
+	net.ctx = &ctx;
+	net.trace_packets = false;
+	net.wrap_drops = false;
+	ip::address const srv_a = ip::make_address_v4("10.1.0.1");
+	ip::address const ext = ip::make_address_v4("10.98.0.1");
+	net.out_spec[srv_a] = {queue_hop(0, 1000000, 0)};
+	net.in_spec[srv_a] = {queue_hop(0, plan.c("sp_ilat"), 0)};
+	std::vector<ip::address> ca;
+	for (int k = 0; k < nc; ++k)
+	{
+		ca.push_back(ip::make_address_v4("10.1." + std::to_string(k + 1) + ".1"));
+		net.out_spec[ca.back()] = {queue_hop(0, 1000000 * (k + 1), 0), nat_hop(ext.to_string())};
+		net.in_spec[ca.back()] = {queue_hop(0, 1000000, 0)};
+	}
+	net.core_spec = {queue_hop(0, 2000000, 0)};
+	sim::simulation sim(net);
+	asio::io_context srv(sim, srv_a);
+	std::vector<std::unique_ptr<asio::io_context>> cio;
+	for (int k = 0; k < nc; ++k) cio.emplace_back(new asio::io_context(sim, ca[size_t(k)]));
+	tcp::acceptor acc(srv);
+	acc.open(tcp::v4()); acc.bind(tcp::endpoint(srv_a, 7000)); acc.listen();
+	struct Side { std::unique_ptr<tcp::socket> s; std::vector<uint8_t> got, rb; bool connected = false; error_code ec; tcp::endpoint remote; };
+	std::vector<Side> cl(static_cast<size_t>(nc)), sv;
+	sv.reserve(8);
+	auto tag = [](int who, int side, int i) { return uint8_t(0x40 + who * 37 + side * 11 + i * 7); };
+	int const taglen = 32;
+	std::function<void(Side&)> rd = [&](Side& x) {
+		x.rb.resize(64);
+		Side* xp = &x;
+		x.s->async_read_some(asio::buffer(x.rb), [&, xp](error_code const& ec, std::size_t n) {
+			++ctx.handlers;
+			if (ec) return;
+			xp->got.insert(xp->got.end(), xp->rb.begin(), xp->rb.begin() + long(n));
+			rd(*xp);
+		});
+	};
+	std::vector<std::unique_ptr<std::vector<uint8_t>>> keep;
+	auto wr = [&](Side& x, int who, int side) {
+		keep.emplace_back(new std::vector<uint8_t>(size_t(taglen)));
+		for (int i = 0; i < taglen; ++i) (*keep.back())[size_t(i)] = tag(who, side, i);
+		asio::async_write(*x.s, asio::buffer(*keep.back()), [&](error_code const&, std::size_t) { ++ctx.handlers; });
+	};
+	std::function<void()> accept_next = [&]() {
+		if (sv.size() >= 6) return;
+		sv.emplace_back();
+		Side& x = sv.back();
+		x.s.reset(new tcp::socket(srv));
+		int const j = int(sv.size()) - 1;
+		Side* xp = &x;
+		acc.async_accept(*x.s, x.remote, [&, xp, j](error_code const& ec) {
+			++ctx.handlers;
+			xp->ec = ec;
+			if (ec) return;
+			xp->connected = true;
+			wr(*xp, j, 1);
+			rd(*xp);
+			accept_next();
+		});
+	};
+	for (int k = 0; k < nc; ++k)
+	{
+		Side& x = cl[size_t(k)];
+		x.s.reset(new tcp::socket(*cio[size_t(k)]));
+		x.s->open(tcp::v4());
+		x.s->bind(tcp::endpoint(ca[size_t(k)], port));
+		Side* xp = &x;
+		x.s->async_connect(tcp::endpoint(srv_a, 7000), [&, xp, k](error_code const& ec) {
+			++ctx.handlers;
+			xp->ec = ec;
+			if (ec) return;
+			xp->connected = true;
+			wr(*xp, k, 0);
+			rd(*xp);
+		});
+	}
+	asio::high_resolution_timer t(srv);
+	if (accept_delay > 0) { t.expires_after(duration(accept_delay)); t.async_wait([&](error_code const& ec) { if (!ec) accept_next(); }); }
+	else accept_next();
+	sim.run();
+	ctx.hit("same_port_behind_one_nat");
+	int connected = 0, accepted = 0;
+	for (auto const& x : cl) if (x.connected) ++connected;
+	for (auto const& x : sv) if (x.connected) ++accepted;
+	if (connected != nc)
+		ctx.fail("nat.same_port.connect", std::to_string(nc) + " hosts behind one external address dialled from the same local port; only " + std::to_string(connected) + " connects completed with success");
+	else if (accepted != nc)
+		ctx.fail("nat.same_port.accept", std::to_string(nc) + " connects succeeded but " + std::to_string(accepted) + " accepts did");
+	else
+	{
+		std::set<int> seen;
+		for (size_t j = 0; j < sv.size(); ++j)
+		{
+			Side const& x = sv[j];
+			if (!x.connected) continue;
+			error_code rec;
+			tcp::endpoint const rem = x.s->remote_endpoint(rec);
+			if (rec || rem != tcp::endpoint(ext, port) || x.remote != rem)
+			{ ctx.fail("nat.tcp.remote_endpoint", "accepted socket reports " + (rec ? rec.message() : rem.address().to_string() + ":" + std::to_string(rem.port())) + ", expected the external address with the connector's port"); break; }
+			// whose bytes are these? exactly one client's, in full
+			int who = -1;
+			for (int k = 0; k < nc; ++k) if (!x.got.empty() && x.got[0] == tag(k, 0, 0)) who = k;
+			bool ok = who >= 0 && int(x.got.size()) == taglen;
+			for (int i = 0; ok && i < taglen; ++i) if (x.got[size_t(i)] != tag(who, 0, i)) ok = false;
+			if (!ok || seen.count(who)) { ctx.fail("nat.tcp.data", "an accepted socket behind the shared external endpoint did not receive exactly one connector's bytes"); break; }
+			seen.insert(who);
+			// and that connector got this socket's bytes
+			Side const& c = cl[size_t(who)];
+			bool back = int(c.got.size()) == taglen;
+			for (int i = 0; back && i < taglen; ++i) if (c.got[size_t(i)] != tag(int(j), 1, i)) back = false;
+			if (!back) { ctx.fail("nat.tcp.data", "the bytes an accepted socket wrote did not arrive at its own connector"); break; }
+		}
+	}
+	for (auto& x : cl) x.s.reset();
+	for (auto& x : sv) x.s.reset();
+	error_code cec;
+	acc.close(cec);
+}
+
 struct ConnEngine : Engine
 {
 	std::string name() const override { return "conn"; }
@@ -768,6 +895,12 @@ struct ConnEngine : Engine
 		p.cfg["corelat"] = rng.pick(std::vector<int64_t>{0, 1000000, 10000000, 50000000});
 		p.cfg["nohops"] = rng.chance(0.08) ? 1 : 0;
 		p.cfg["handoff"] = rng.chance(0.25) ? 1 : 0;
+		if (c13 && rng.chance(0.15))
+		{
+			p.cfg["sp_clients"] = rng.range(2, 3);
+			p.cfg["sp_accept_delay"] = rng.pick(std::vector<int64_t>{0, 1000000, 50000000, 500000000});
+			p.cfg["sp_ilat"] = rng.pick(std::vector<int64_t>{0, 1000000, 20000000});
+		}
 		if (rng.chance(c13 ? 0.35 : 0.15))
 		{
 			p.cfg["taglen"] = rng.pick(std::vector<int64_t>{3000, 20000, 50000});
@@ -817,6 +950,7 @@ struct ConnEngine : Engine
 		Conn a(plan, ctx, true);
 		a.go();
 		if (plan.prop != "C13" || ctx.violated) return;
+		if (plan.c("sp_clients") >= 2) { same_port_behind_one_nat(plan, ctx); if (ctx.violated) return; }
 		bool any_nat = false;
 		for (auto const& n : a.nodes) if (n.nat) any_nat = true;
 		if (!any_nat) return;
